@@ -213,21 +213,22 @@ template <class SizeType1, class SizeType2>
 inline void swap_sizetype(SizeType1 &lhs, SizeType2 &rhs) {
   // Simple swap for different SizeType
   // We need to check if their values can exchange in each other size type
+  // Compare the maximum values, not the sizes of the types: int8_t and uint8_t have the same size but not the same range
+  constexpr uintmax_t kMax1 = static_cast<uintmax_t>(std::numeric_limits<SizeType1>::max());
+  constexpr uintmax_t kMax2 = static_cast<uintmax_t>(std::numeric_limits<SizeType2>::max());
 #ifdef AMC_CXX17
-  if constexpr (sizeof(SizeType1) < sizeof(SizeType2)) {
-    if (AMC_UNLIKELY(static_cast<SizeType2>(std::numeric_limits<SizeType1>::max()) < rhs)) {
+  if constexpr (kMax1 < kMax2) {
+    if (AMC_UNLIKELY(kMax1 < static_cast<uintmax_t>(rhs))) {
       throw std::overflow_error("Cannot cast size to each other");
     }
-  } else if constexpr (sizeof(SizeType2) < sizeof(SizeType1)) {
-    if (AMC_UNLIKELY(static_cast<SizeType1>(std::numeric_limits<SizeType2>::max()) < lhs)) {
+  } else if constexpr (kMax2 < kMax1) {
+    if (AMC_UNLIKELY(kMax2 < static_cast<uintmax_t>(lhs))) {
       throw std::overflow_error("Cannot cast size to each other");
     }
   }
 #else
-  if (AMC_UNLIKELY((sizeof(SizeType1) < sizeof(SizeType2) &&
-                    static_cast<SizeType2>(std::numeric_limits<SizeType1>::max()) < rhs) ||
-                   (sizeof(SizeType2) < sizeof(SizeType1) &&
-                    static_cast<SizeType1>(std::numeric_limits<SizeType2>::max()) < lhs))) {
+  if (AMC_UNLIKELY((kMax1 < kMax2 && kMax1 < static_cast<uintmax_t>(rhs)) ||
+                   (kMax2 < kMax1 && kMax2 < static_cast<uintmax_t>(lhs)))) {
     throw std::overflow_error("Cannot cast size to each other");
   }
 #endif
